@@ -170,6 +170,9 @@ pub struct SimPeer {
     pub lag: u64,
     /// a made-up tip this (deviating) peer announced; it "proves" it on request
     pub fake_tip: Option<packed::VerifiableHeader>,
+    /// the made-up tip is an unmined copy of this real block: the peer proves it as an honest
+    /// node proves the real one
+    pub fake_tip_real: Option<crate::server::View>,
     /// hashes of side-branch blocks this (deviating) peer planted into BlockFilters answers
     pub planted: Vec<packed::Byte32>,
     /// made-up headers (with their extension) whose hashes this peer handed to the user
@@ -265,6 +268,7 @@ impl Sim {
                 relay_announced: Vec::new(),
                 lag: p.lag,
                 fake_tip: None,
+                fake_tip_real: None,
                 planted: Vec::new(),
                 planted_headers: Vec::new(),
             })
